@@ -1,7 +1,7 @@
 //! C11: TriMesh derived-data coherence.  Operation histories on the real `TriMesh` (3-D and 2-D).
 //!
 //! `hist3` / `hist2` args:  <mesh> <nops> <op>*      mesh = nv <coords> ni <idx> flags
-//!     op = `sf <flags>` | `rev` | `app <mesh>`
+//!     op = `sf <flags>` | `rev` | `app <mesh>` | `tv <n> <isometry components>` (3-D: qi qj qk qw tx ty tz; 2-D: re im tx ty)
 //! output: segments joined by ` ; `
 //!     initial: `empty` | `panic` | <state>
 //!     sf     : `panic` | (`ok` | `badtri f` | `badadj t1 t2 e0 e1`) <state>
@@ -37,7 +37,7 @@ pub fn derive_flags(f: u16) -> u16 {
 #[derive(Clone, Debug)]
 pub struct RawMesh { pub v: Vec<Vec<f64>>, pub i: Vec<[u32; 3]>, pub f: u16 }
 #[derive(Clone, Debug)]
-pub enum RawOp { Sf(u16), Rev, App(RawMesh) }
+pub enum RawOp { Sf(u16), Rev, App(RawMesh), Tv(Vec<f64>) }
 
 pub fn read_mesh(a: &mut Args, d: usize) -> RawMesh {
     let nv = a.u();
@@ -53,6 +53,7 @@ pub fn read_ops(a: &mut Args, d: usize) -> Vec<RawOp> {
         "sf" => RawOp::Sf(a.u() as u16),
         "rev" => RawOp::Rev,
         "app" => RawOp::App(read_mesh(a, d)),
+        "tv" => { let n = a.u(); RawOp::Tv((0..n).map(|_| a.f()).collect()) }
         t => panic!("bad op {}", t),
     }).collect()
 }
@@ -72,13 +73,14 @@ pub fn show_case(m: &RawMesh, ops: &[RawOp]) -> String {
             RawOp::Sf(f) => s.push_str(&format!(" sf {}", f)),
             RawOp::Rev => s.push_str(" rev"),
             RawOp::App(r) => { s.push_str(" app "); s.push_str(&show_mesh(r)); }
+            RawOp::Tv(xs) => { s.push_str(&format!(" tv {} {}", xs.len(), hxs(xs.iter()))); }
         }
     }
     s
 }
 
 macro_rules! dim_impl {
-    ($m:ident, $p:ident, $d:expr, $pn:expr) => {
+    ($m:ident, $p:ident, $d:expr, $pn:expr, $iso:expr) => {
         pub mod $m {
             use super::*;
             use crate::$p::math::{Point, Real};
@@ -200,6 +202,12 @@ macro_rules! dim_impl {
                             if r.is_err() { out.push("panic".into()); break; }
                             out.push(state(&mesh));
                         }
+                        RawOp::Tv(xs) => {
+                            let iso = ($iso)(&xs[..]);
+                            let r = catch_unwind(AssertUnwindSafe(|| mesh.transform_vertices(&iso)));
+                            if r.is_err() { out.push("panic".into()); break; }
+                            out.push(state(&mesh));
+                        }
                         RawOp::App(r) => {
                             let rhs = match build(pts(r), r.i.clone(), r.f) {
                                 Some(Ok(m)) => m,
@@ -219,8 +227,12 @@ macro_rules! dim_impl {
 
 dim_impl!(h3, p3, 3, |m: &TriMesh| m.pseudo_normals().map(|pn| (
     pn.vertices_pseudo_normal.iter().map(|v| v.iter().cloned().collect::<Vec<f64>>()).collect::<Vec<_>>(),
-    pn.edges_pseudo_normal.iter().map(|e| e.iter().flat_map(|v| v.iter().cloned()).collect::<Vec<f64>>()).collect::<Vec<_>>())));
-dim_impl!(h2, p2, 2, |_m: &TriMesh| None);
+    pn.edges_pseudo_normal.iter().map(|e| e.iter().flat_map(|v| v.iter().cloned()).collect::<Vec<f64>>()).collect::<Vec<_>>())),
+    |xs: &[f64]| { use crate::p3::na; crate::p3::math::Isometry::<f64>::from_parts(na::Translation3::new(xs[4], xs[5], xs[6]),
+        na::Unit::new_unchecked(na::Quaternion::new(xs[3], xs[0], xs[1], xs[2]))) });
+dim_impl!(h2, p2, 2, |_m: &TriMesh| None,
+    |xs: &[f64]| { use crate::p2::na; crate::p2::math::Isometry::<f64>::from_parts(na::Translation2::new(xs[2], xs[3]),
+        na::Unit::new_unchecked(na::Complex::new(xs[0], xs[1]))) });
 
 /// `contains3`: <mesh> <nops> <op>* <npts> <pts>  ->  one bit per point (`contains_local_point`), or `nobuild`
 fn contains3(a: &mut Args) -> String {
@@ -239,6 +251,7 @@ fn contains3(a: &mut Args) -> String {
             RawOp::Sf(f) => { let _ = mesh.set_flags(TriMeshFlags::from_bits_truncate(*f)); }
             RawOp::Rev => mesh.reverse(),
             RawOp::App(r) => { if let Ok(rhs) = mk(r) { mesh.append(&rhs); } }
+            RawOp::Tv(_) => {}
         }
     }
     pts.iter().map(|p| if mesh.contains_local_point(p) { "1" } else { "0" }).collect::<Vec<_>>().join(" ")
@@ -354,10 +367,14 @@ fn gen_mesh(r: &mut Rng, d: usize, small: bool) -> RawMesh {
 
 fn gen_ops(r: &mut Rng, d: usize, maxlen: u64) -> Vec<RawOp> {
     let n = r.below(maxlen + 1);
-    (0..n).map(|_| match r.below(10) {
+    (0..n).map(|_| match r.below(12) {
         0..=5 => RawOp::Sf(gen_flags(r)),
         6..=7 => RawOp::Rev,
-        _ => RawOp::App(gen_mesh(r, d, true)),
+        8..=9 => RawOp::App(gen_mesh(r, d, true)),
+        _ => { let lat = r.bool();
+               if d == 3 { let q = d3::gen_quat(r, lat); let t: Vec<f64> = (0..3).map(|_| r.coord(lat, 5.0)).collect();
+                           RawOp::Tv(vec![q[0], q[1], q[2], q[3], t[0], t[1], t[2]]) }
+               else { let (re, im) = d2::gen_rot(r, lat); RawOp::Tv(vec![re, im, r.coord(lat, 5.0), r.coord(lat, 5.0)]) } }
     }).collect()
 }
 
